@@ -26,14 +26,15 @@ VARIABLES cert, rot,                     \* env: the certificate and the root of
           ndef, nren,                    \* env: deviations applied so far / of which namings
           scale,                         \* env: "near" | "extreme" - where the three instants and the free
                                          \* ends of the validity windows lie on the calendar
+          len,                           \* env: "asis" | "long" - how many X.509 elements the chain has
           tz,                            \* env: UTC offset of the machine the validator runs on
           clks, outs,                    \* env/obs: clock instant of every validation so far, and its outcome
           phase, cur, visited, chain, certifier, steps,   \* sys
           outcome, failing, reported     \* obs: what the validator returns for the target
-envv == <<cert, rot, ndef, nren, scale, tz, clks, outs>>
+envv == <<cert, rot, ndef, nren, scale, len, tz, clks, outs>>
 sysv == <<phase, cur, visited, chain, certifier, steps>>
 obsv == <<outcome, failing, reported>>
-vars == <<cert, rot, ndef, nren, scale, tz, clks, outs, phase, cur, visited, chain, certifier, steps, outcome, failing, reported>>
+vars == <<cert, rot, ndef, nren, scale, len, tz, clks, outs, phase, cur, visited, chain, certifier, steps, outcome, failing, reported>>
 
 (***************************************************************************)
 (* Env: genuine bases                                                      *)
@@ -94,7 +95,7 @@ Base(d, sp, em) ==
 
 Init == /\ \E d \in 1..MaxDepth, sp \in Spares, em \in Embeds :
               (sp = "none" \/ em = "none") /\ cert = Base(d, sp, em)
-        /\ rot = GoodRot /\ ndef = 0 /\ nren = 0 /\ scale = "near" /\ tz = "utc" /\ clks = <<2>> /\ outs = <<>>
+        /\ rot = GoodRot /\ ndef = 0 /\ nren = 0 /\ scale = "near" /\ len = "asis" /\ tz = "utc" /\ clks = <<2>> /\ outs = <<>>
         /\ phase = "env" /\ cur = None /\ visited = {} /\ chain = <<>> /\ certifier = None /\ steps = 0
         /\ outcome = None /\ failing = None /\ reported = None
 
@@ -105,15 +106,18 @@ Init == /\ \E d \in 1..MaxDepth, sp \in Spares, em \in Embeds :
 \* a validity window that does not cover all three instants (at instant 2: until1 = expired,
 \* from3 = not yet valid, only2 = valid now but neither before nor after)
 Clk == clks[Len(clks)]
-SetWindow(n, w) == /\ cert[n].kind = "x509" /\ cert[n].win = "all"
+\* a chain element (not the top one, not the element NAMED like the root) that IS the genuine root
+\* certificate: carries the root's key, self-signed
+IsRootCopy(n) == n # RootName /\ cert[n].kind = "x509" /\ cert[n].key = RootName
+SetWindow(n, w) == /\ cert[n].kind = "x509" /\ cert[n].win = "all" /\ ~IsRootCopy(n)
                    /\ cert' = [cert EXCEPT ![n].win = w, ![n].time = TimeAt(w, Clk)] /\ UNCHANGED rot
 \* the root of trust's own certificate has a window too (nothing in C07 depends on it, see ValidIffP)
-SetRootWindow(w) == /\ rot.win = "all"
+SetRootWindow(w) == /\ rot.win = "all" /\ \A n \in DOMAIN cert : ~IsRootCopy(n)
                     /\ rot' = [rot EXCEPT !.win = w, !.time = TimeAt(w, Clk)] /\ UNCHANGED cert
-BadSig(n)      == /\ cert[n].sigBy # "other"
+BadSig(n)      == /\ cert[n].sigBy # "other" /\ ~IsRootCopy(n)
                   /\ cert' = [cert EXCEPT ![n].sigBy = "other"] /\ UNCHANGED rot
 \* the curve belongs to the key: every certificate over that key shows it
-OtherCurve(n)  == /\ cert[n].kind = "x509" /\ cert[n].curve = "P256" /\ n # RootName
+OtherCurve(n)  == /\ cert[n].kind = "x509" /\ cert[n].curve = "P256" /\ n # RootName /\ ~IsRootCopy(n)
                   /\ cert' = [m \in DOMAIN cert |->
                                 IF cert[m].kind = "x509" /\ cert[m].key = cert[n].key
                                 THEN [cert[m] EXCEPT !.curve = "Other"] ELSE cert[m]]
@@ -141,22 +145,35 @@ ForgeTop       == /\ HasForeign /\ cert[XNames[1]].sigBy = RootName
 IsChainX(n)    == \E i \in 1..Len(XNames) : XNames[i] = n
 OrigParentX(n) == LET i == CHOOSE j \in 1..Len(XNames) : XNames[j] = n IN ParentOfX(i)
 DupCandidates(n) == {m \in DOMAIN cert : cert[m].kind = "x509" /\ m # n /\ m # OrigParentX(n)}
-Rename(n, v)   == /\ IsChainX(n) /\ cert[n].naming = "canon"
+Rename(n, v)   == /\ IsChainX(n) /\ cert[n].naming = "canon" /\ ~IsRootCopy(n)
                   /\ v = "rootissuer" => n # XNames[1]
                   /\ v = "dupsubject" => DupCandidates(n) # {}
                   /\ cert' = [cert EXCEPT ![n].naming = v] /\ UNCHANGED rot
+
+\* The genuine root certificate re-appears inside the chain, below the top: element n IS the root
+\* certificate (root key, self-signed) and what it certifies is signed by the root key.  Its own link
+\* does not verify (it is not signed by the element above it), so the target is not valid.
+RootReappears(n) ==
+    /\ IsChainX(n) /\ n # XNames[1] /\ ~IsRootCopy(n) /\ rot.win = "all" /\ rot.curve = "P256"
+    /\ cert[n].win = "all" /\ cert[n].naming = "canon" /\ cert[n].curve = "P256" /\ cert[n].sigBy # "other"
+    /\ "spare" \in DOMAIN cert => cert["spare"].key # cert[n].key
+    /\ cert' = [m \in DOMAIN cert |->
+                   IF m = n THEN [cert[m] EXCEPT !.key = RootName, !.sigBy = RootName]
+                   ELSE IF cert[m].sigBy = cert[n].key THEN [cert[m] EXCEPT !.sigBy = RootName]
+                   ELSE cert[m]]
+    /\ UNCHANGED rot
 
 Mutate == /\ phase = "env" /\ ndef < MaxDefects
           /\ nren > 0 => ndef < MaxWithRename
           /\ UNCHANGED nren
           /\ \/ \E n \in DOMAIN cert :
                   \/ \E w \in Windows \ {"all"} : SetWindow(n, w)
-                  \/ BadSig(n) \/ OtherCurve(n) \/ Unbind(n) \/ BadKey(n)
+                  \/ BadSig(n) \/ OtherCurve(n) \/ Unbind(n) \/ BadKey(n) \/ RootReappears(n)
                   \/ \E m \in DOMAIN cert \cup {RootName, Ghost} : n \notin {"spare", RootName} /\ Reparent(n, m)
              \/ WrongRoot \/ ForgeTop
              \/ \E w \in Windows \ {"all"} : SetRootWindow(w)
           /\ ndef' = ndef + 1
-          /\ UNCHANGED <<scale, tz, clks, outs, sysv, obsv>>
+          /\ UNCHANGED <<scale, len, tz, clks, outs, sysv, obsv>>
 
 (***************************************************************************)
 (* Sys: HSMCertificate._parse (path-to-root sanity check for the target)   *)
@@ -222,7 +239,7 @@ Walk ==
 MutateName == /\ phase = "env" /\ ndef < MaxDefects /\ ndef < MaxWithRename /\ nren < MaxRenames
               /\ \E n \in DOMAIN cert, v \in Namings \ {"canon"} : Rename(n, v)
               /\ ndef' = ndef + 1 /\ nren' = nren + 1
-              /\ UNCHANGED <<scale, tz, clks, outs, sysv, obsv>>
+              /\ UNCHANGED <<scale, len, tz, clks, outs, sysv, obsv>>
 
 \* The validity DATES themselves (another choice the reference never reads, sharing the budget of the
 \* namings): "near" = instants 1, 3 a few days before / after now and window ends within years of it;
@@ -235,7 +252,7 @@ MutateName == /\ phase = "env" /\ ndef < MaxDefects /\ ndef < MaxWithRename /\ n
 Stretch == /\ phase = "env" /\ ndef < MaxDefects /\ ndef < MaxWithRename /\ nren < MaxRenames
            /\ scale = "near" /\ scale' = "extreme"
            /\ ndef' = ndef + 1 /\ nren' = nren + 1
-           /\ UNCHANGED <<cert, rot, tz, clks, outs, sysv, obsv>>
+           /\ UNCHANGED <<cert, rot, len, tz, clks, outs, sysv, obsv>>
 
 \* The machine's own time zone (again read by nobody: validity is about instants, X.509 dates are UTC):
 \* UTC, UTC-8, UTC+9, UTC+14, UTC-12.  Combined with every window defect and clock position.
@@ -243,7 +260,20 @@ Zones == {"utc", "m8", "p9", "p14", "m12"}
 Shift == /\ phase = "env" /\ ndef < MaxDefects /\ ndef < MaxWithRename /\ nren < MaxRenames
          /\ tz = "utc" /\ \E z \in Zones \ {"utc"} : tz' = z
          /\ ndef' = ndef + 1 /\ nren' = nren + 1
-         /\ UNCHANGED <<cert, rot, scale, clks, outs, sysv, obsv>>
+         /\ UNCHANGED <<cert, rot, scale, len, clks, outs, sysv, obsv>>
+
+\* SCALE.  x1 .. xd stand for the top, (middle) and bottom of a chain that may be far longer: with
+\* len = "long" runs of genuine X.509 elements (in period, canonically named, each signed by the one
+\* above) sit between x1 and x2 and between x2 and x3, 254 .. 520 X.509 elements in all (the driver
+\* picks 254, 255, 256, 257, 258, 300, 520 and puts 253 .. 255 of them below the middle).  Every link
+\* of such a run verifies, so neither the reference verdict nor the walk's verdict can depend on its
+\* length; the FULL concrete path is what TLC judges in TraceCertV2.
+Lengthen == /\ phase = "env" /\ ndef < MaxDefects /\ ndef < MaxWithRename /\ nren < MaxRenames
+            /\ len = "asis" /\ XNames[2] \in DOMAIN cert
+            /\ "spare" \notin DOMAIN cert /\ RootName \notin DOMAIN cert
+            /\ len' = "long"
+            /\ ndef' = ndef + 1 /\ nren' = nren + 1
+            /\ UNCHANGED <<cert, rot, scale, tz, clks, outs, sysv, obsv>>
 
 (***************************************************************************)
 (* Env: time passes (or is set back) and the SAME loaded certificate object *)
@@ -261,10 +291,10 @@ Tick == /\ phase = "done" /\ outcome # "loaderror" /\ Len(clks) < MaxRounds /\ T
         /\ outs' = Append(outs, outcome)
         /\ phase' = "build" /\ cur' = Target /\ chain' = <<>> /\ certifier' = None /\ steps' = 0
         /\ outcome' = None /\ failing' = None /\ reported' = None
-        /\ UNCHANGED <<ndef, nren, scale, tz, visited>>
+        /\ UNCHANGED <<ndef, nren, scale, len, tz, visited>>
 
 SysNext == Start \/ ParseStep \/ Build \/ Walk
-Next == Mutate \/ MutateName \/ Stretch \/ Shift \/ SysNext \/ Tick
+Next == Mutate \/ MutateName \/ Stretch \/ Shift \/ Lengthen \/ SysNext \/ Tick
 Spec == Init /\ [][Next]_vars /\ WF_vars(Next)
 
 (***************************************************************************)
